@@ -7,6 +7,7 @@ import (
 	"reflect"
 	"strings"
 	"sync/atomic"
+	"time"
 	"unicode/utf8"
 
 	"github.com/influxdata/influxql"
@@ -33,6 +34,8 @@ type c04Case struct {
 var c04entries = []string{"ParseQuery", "ParseStatement", "ParseExpr"}
 
 var c04maxTokPush, c04maxRunePush int64
+var c04hung int32
+var c04hangAfter = 60 * time.Second
 
 func noteMax(dst *int64, v int) {
 	for {
@@ -58,22 +61,41 @@ func c04parse(text string, entry int, params map[string]interface{}, cs interfac
 	var res interface{}
 	var err error
 	var stats influxql.VerifStats
-	pv, st := try(func() {
-		p := influxql.NewParser(strings.NewReader(text))
-		p.VerifSetBudget(budget)
-		if params != nil {
-			p.SetParams(params)
-		}
-		defer func() { stats = p.VerifStats() }()
-		switch entry {
-		case 0:
-			res, err = p.ParseQuery()
-		case 1:
-			res, err = p.ParseStatement()
-		default:
-			res, err = p.ParseExpr()
-		}
-	})
+	if atomic.LoadInt32(&c04hung) != 0 {
+		return nil, false // a parse is stuck: the run is being wound up
+	}
+	var pv interface{}
+	var st string
+	done := make(chan struct{})
+	go func() {
+		defer close(done)
+		pv, st = try(func() {
+			p := influxql.NewParser(strings.NewReader(text))
+			p.VerifSetBudget(budget)
+			if params != nil {
+				p.SetParams(params)
+			}
+			defer func() { stats = p.VerifStats() }()
+			switch entry {
+			case 0:
+				res, err = p.ParseQuery()
+			case 1:
+				res, err = p.ParseStatement()
+			default:
+				res, err = p.ParseExpr()
+			}
+		})
+	}()
+	// The scan budget bounds the parser's own loops; this guard is for a parse that blocks outside them (a lock that
+	// is never released). It is not a performance oracle: a parse takes microseconds, the guard waits a minute.
+	timer := time.NewTimer(c04hangAfter)
+	select {
+	case <-done:
+		timer.Stop()
+	case <-timer.C:
+		atomic.StoreInt32(&c04hung, 1)
+		return []ev.Finding{{Sig: "hang:" + c04entries[entry], Witness: witness, Detail: fmt.Sprintf("%s did not return within %v (the inputs parsed earlier in this process may be part of the cause: state carried between calls)", c04entries[entry], c04hangAfter), Case: cs, Rank: rank}}, false
+	}
 	name := c04entries[entry]
 	rep := func(sig, detail string) {
 		fs = append(fs, ev.Finding{Sig: sig, Witness: witness, Detail: detail, Case: cs, Rank: rank})
@@ -170,7 +192,10 @@ var c04params = []c04param{
 	{"regex slash", func() interface{} { return map[string]interface{}{"regex": "/"} }},
 	{"duration huge", func() interface{} { return map[string]interface{}{"duration": "99999999999999999999h"} }},
 	{"duration negative", func() interface{} { return map[string]interface{}{"duration": "-1h"} }}, {"duration empty", func() interface{} { return map[string]interface{}{"duration": ""} }},
-	{"duration garbage", func() interface{} { return map[string]interface{}{"duration": "h1"} }}, {"duration MinInt64", func() interface{} { return map[string]interface{}{"duration": int64(math.MinInt64)} }},
+	{"duration garbage", func() interface{} { return map[string]interface{}{"duration": "h1"} }},
+	{"duration truncated µ", func() interface{} { return map[string]interface{}{"duration": "10\xc2"} }}, {"duration 2 components truncated µ", func() interface{} { return map[string]interface{}{"duration": "1m30\xc2"} }},
+	{"duration bad byte", func() interface{} { return map[string]interface{}{"duration": "10\xb5\xff"} }}, {"duration only sign", func() interface{} { return map[string]interface{}{"duration": "-"} }},
+	{"regex invalid utf8", func() interface{} { return map[string]interface{}{"regex": "a\xffb"} }}, {"ident invalid utf8", func() interface{} { return map[string]interface{}{"ident": "\xc2"} }}, {"duration MinInt64", func() interface{} { return map[string]interface{}{"duration": int64(math.MinInt64)} }},
 	{"integer MinInt64", func() interface{} { return map[string]interface{}{"integer": int64(math.MinInt64)} }},
 	{"float NaN", func() interface{} { return map[string]interface{}{"float": math.NaN()} }},
 	{"nested map", func() interface{} { return map[string]interface{}{"string": map[string]interface{}{"string": "x"}} }},
@@ -191,7 +216,7 @@ func c04paramBody(c *xplore.Ctx) (text string, form string, fs []ev.Finding, ski
 			chosen = c.Free(len(c04params) + 2)
 			name := "p"
 			if chosen == len(c04params)+1 {
-				name = "" // the empty placeholder "$"
+				name = "\x00" // the empty placeholder "$"
 			}
 			return def, name
 		}
@@ -202,19 +227,23 @@ func c04paramBody(c *xplore.Ctx) (text string, form string, fs []ev.Finding, ski
 		return "", spec.Form, nil, true
 	}
 	text = gram.Render(nil, spec.Toks)
-	text = strings.Replace(text, `$""`, "$", 1)
 	params := map[string]interface{}{}
 	pname := "<unbound>"
 	if chosen < len(c04params) {
 		params["p"] = c04params[chosen].v()
 		pname = c04params[chosen].name
 	} else if chosen == len(c04params)+1 {
-		pname = "<empty placeholder>"
+		pname = "<empty placeholder, \"\" bound to 5>"
+		params[""] = int64(5)
 	}
 	wit := fmt.Sprintf("%s with $p = %s", text, pname)
 	for entry := 0; entry < 2; entry++ {
-		f, _ := c04parse(text, entry, params, vecCase{Vector: c.Vector()}, wit, c.TotalCost()*1000+len(text))
+		f, ok := c04parse(text, entry, params, vecCase{Vector: c.Vector()}, wit, c.TotalCost()*1000+len(text))
 		fs = append(fs, f...)
+		if ok && chosen >= len(c04params) {
+			// an unbound or empty placeholder must produce an error, whatever the parameter map contains
+			fs = append(fs, ev.Finding{Sig: "unbound-or-empty-placeholder-accepted:" + c04entries[entry], Witness: wit, Detail: "the parse succeeded", Case: vecCase{Vector: c.Vector()}, Rank: c.TotalCost()*1000 + len(text)})
+		}
 	}
 	return wit, spec.Form, fs, false
 }
@@ -273,6 +302,10 @@ func c04editBody(alpha []string) func(c *xplore.Ctx) (string, string, []ev.Findi
 
 func init() {
 	register(&Check{ID: "C04", Run: c04run, Replay: func(raw json.RawMessage) []ev.Finding {
+		if atomic.LoadInt32(&c04hung) != 0 {
+			c04hangAfter = 10 * time.Second // the process is already known to be stuck; confirming it need not take long
+		}
+		atomic.StoreInt32(&c04hung, 0)
 		var probe map[string]json.RawMessage
 		if json.Unmarshal(raw, &probe) != nil {
 			return nil
